@@ -237,6 +237,11 @@ C20(pre, e) ==
         LET q == e.probes.rerun IN
         /\ q.code = e.out.code /\ q.msg_eq /\ q.digest = e.out.digest
         /\ q.reqs_eq /\ q.next = e.out.next /\ q.flags = e.out.flags
+        \* and the same inputs re-executed in a fresh process (other hash seeds, no state left over from earlier runs)
+        /\ e.probes.rerun_fresh.done =>
+              LET f == e.probes.rerun_fresh IN
+              /\ ~f.died /\ f.code = e.out.code /\ f.msgd = e.out.msgd /\ f.digest = e.out.digest
+              /\ f.reqsd = e.out.reqsd /\ f.next = e.out.next
 
 (***************************************************************************)
 (* C27  data and call encodings round-trip (probe part)                    *)
